@@ -366,6 +366,30 @@ def skeletons(ch, tx, sv):
     return order
 
 
+def persistence(repo):
+    """the conversion between a channel and its persisted entry (`Bolt3.persistChannel / restoreChannel`)"""
+    kv = _nows(strip_comments(read(repo, "vls-persist/src/kvv.rs")))
+    pm = _nows(strip_comments(read(repo, "vls-persist/src/model.rs")))
+    nd = _nows(strip_comments(read(repo, "vls-core/src/node.rs")))
+    cm = _nows(strip_comments(read(repo, "vls-core/src/persist/model.rs")))
+    need = [
+        (kv, "vls-persist/src/kvv.rs update_channel",
+         "letchannel_value_satoshis=channel.setup.channel_value_sat;letentry=ChannelEntry{channel_value_satoshis,channel_setup:Some(channel.setup.clone()),"
+         "id:channel.id.clone(),enforcement_state:channel.enforcement_state.clone(),blockheight:None,};letvalue=F::ser_value(&entry)?;self.put(&key,value)"),
+        (pm, "vls-persist/src/model.rs From<ChannelEntry>",
+         "CoreChannelEntry{channel_value_satoshis:e.channel_value_satoshis,channel_setup:e.channel_setup,id:e.id,enforcement_state:e.enforcement_state,blockheight:e.blockheight,}"),
+        (cm, "vls-core/src/persist/model.rs ChannelEntry", "pubchannel_value_satoshis:u64,"),
+        (cm, "vls-core/src/persist/model.rs ChannelEntry", "pubchannel_setup:Option<ChannelSetup>,"),
+        (nd, "node.rs restore: keys from the stored channel value",
+         "letmutkeys=node.keys_manager.get_channel_keys_with_id(channel_id0.clone(),channel_entry.channel_value_satoshis,);"),
+        (nd, "node.rs restore: setup from the entry", "letsetup_opt=channel_entry.channel_setup;matchsetup_opt{"),
+    ]
+    for src, where, frag in need:
+        if src.count(frag) != 1:
+            raise ExtractError(f"{where}: expected exactly one `{frag[:80]}`, found {src.count(frag)}")
+    return True
+
+
 def extract(repo):
     tx = strip_comments(read(repo, "vls-core/src/tx/tx.rs"))
     sc = strip_comments(read(repo, "vls-core/src/tx/script.rs"))
@@ -473,6 +497,11 @@ def extract(repo):
               "/-- `impl Ord for HTLCInfo2`: the fields compared, in order (0 value_sat, 1 payment_hash, 2 cltv_expiry) -/",
               "def htlcInfo2Order : List Nat := [" + ", ".join(str(i) for i in order2) + "]", ""]
         facts["HTLCInfo2_ord"] = order2
+    if guarded("persist / restore of a channel", lambda: persistence(repo)):
+        L += ["/-- `KVVPersister::update_channel` stores `channel_value_satoshis = setup.channel_value_sat` next to the whole `ChannelSetup`,",
+              "    `From<ChannelEntry>` copies both, `Node::new_from_persistence` derives the channel keys with the stored",
+              "    `channel_value_satoshis` and takes the setup from the entry: `Bolt3.persistChannel / restoreChannel` (compared textually) -/",
+              "def persistRestoreAsModelled : Bool := true", ""]
     L.append("end VlsModel.Gen.Bolt3")
     obl = ["Gen.Bolt3: every canonical witness script of the model is parsed by the template the code tries first and by no earlier one "
            "(theorems C04_gen_parse_*, C04_gen_classify), model constants equal the source's (C04_gen_consts)"]
